@@ -704,6 +704,9 @@ extern (*AnalyticEngine).HasFields
   props C20 C14 C12
   option pure
 
+immutable analyticFieldEngine: lastResults!
+
+// one row through every analytic field of the query (assumed: its frame only; the per-field engine is under contract)
 extern (*AnalyticEngine).Evaluate
   props C20 C14 C12
 
@@ -860,8 +863,15 @@ func (*Stream).compileOutputNames
   loop 3 invariant forall(a, 0, len(s.groupOutputNames), forall(b, 0, len(s.groupOutputNames), a != b ==> s.groupOutputNames[a] != s.groupOutputNames[b]))
 
 // the state constructors of a field are worked out from the field; nothing under contract is written
-extern buildStateCtors
+func buildStateCtors
   props C14 C12 C20 C05
+  option assumed_frame
+  observe fn := Get
+  observe known := Get#1
+  loop 1 invariant len(names) == $i && forall(j, 0, $i, names[j] == af.Calls[j].FuncName)
+  loop 2 invariant len(ctors) == $i && ($s == names) && (len(af.Calls) > 0 ==> len(names) == len(af.Calls) && forall(j, 0, len(names), names[j] == af.Calls[j].FuncName)) && (len(af.Calls) == 0 ==> len(names) == 1 && names[0] == af.FuncName)
+  atreturn one-state-constructor-per-analytic-call-of-the-field-or-one-for-the-field-itself: result1 == nil ==> len(result0) == ite(len(af.Calls) > 0, len(af.Calls), 1)
+  atreturn an-unknown-or-stateless-function-is-refused: result1 != nil ==> result0 == nil
 
 // every analytic field of a query gets an engine of its own: its own partitions, its own recency list and its own memory
 // of the last result per partition (two fields never share any of them), built for that field, in the order written
